@@ -145,6 +145,9 @@ func MakeProfile(prop string, seed uint64, tier string) *Profile {
 		p.Bulk = 5400 + r.Intn(1200)
 		p.PoolSize = 0
 		p.Tag += "+bulk"
+		if p.MaxCrashes == 0 {
+			p.MaxCrashes = 1
+		}
 		if r.Chance(1, 3) {
 			p.Bulk = 400 + r.Intn(40)
 			p.BulkBytes = 48 * 1024
